@@ -23,6 +23,9 @@ def register(reg):
               'start_time_millis', 'outcome_details', 'marginal')
   reg.private('PhaseRecord', 'outcome', 'result', 'marginal', 'end_time_millis', 'start_time_millis', 'options')
   reg.private('SubtestRecord', 'outcome')
+  reg.private('PhaseOptions', 'name', 'timeout_s', 'run_if', 'requires_state', 'force_repeat', 'repeat_on_measurement_fail',
+              'repeat_on_timeout', 'repeat_limit', 'run_under_pdb', 'stop_on_measurement_fail')
+  reg.private('PhaseDescriptor', 'options', 'func_location', 'plugs', 'measurements', 'diagnosers', 'func', 'extra_kwargs', 'code_info')
   reg.private('event', 'flag')
   reg.private('threading.Thread', 'alive')
   reg.private_exceptions.update(['InvalidPhaseResultError', 'TestStopError', 'TestExecutionError'])
@@ -55,6 +58,10 @@ def register(reg):
     # what a phase thread publishes is a PhaseResult or an ExceptionInfo, never the timeout marker None
     pr = ex.read_field(st, VRef(cur.cls, new), 'phase_result')
     st.assume(z3.Implies(new != 0, z3.Not(Val.is_VN(pr.t))))
+    # ... and never FAIL_SUBTEST outside a subtest (postcondition of PhaseExecutorThread._thread_proc, verified above)
+    sub = ex.read_field(st, th, '_subtest_rec')
+    fs = ex.class_by_name('PhaseResult')
+    st.assume(z3.Implies(z3.And(new != 0, pr.t == Val.VE(z3.IntVal(fs.uid), z3.IntVal(fs.index('FAIL_SUBTEST')))), sub.t != 0))
   reg.join_effects['PhaseExecutorThread'] = publish_outcome
 
   # ---------------------------------------------------------------- result validation in the phase thread
@@ -85,7 +92,8 @@ def register(reg):
   c.returns('ref:PhaseExecutionOutcome')
   c.requires('timeout_is_a_number', 'self._phase_desc.options.timeout_s is None or '
              '(self._phase_desc.options.timeout_s >= 0 and self._phase_desc.options.timeout_s < 2**60)')
-  c.requires('a_stored_outcome_has_a_result', 'self._phase_execution_outcome is None or self._phase_execution_outcome.phase_result is not None')
+  c.requires('a_stored_outcome_is_valid', 'self._phase_execution_outcome is None or (self._phase_execution_outcome.phase_result is not None and (not self._phase_execution_outcome.is_fail_subtest or self._subtest_rec is not None))')
+  c.ensures('fail_subtest_only_in_subtest', 'implies(result.is_fail_subtest, self._subtest_rec is not None)')
   c.ensures('stored_outcome_is_returned', 'implies(self._phase_execution_outcome is not None, result is self._phase_execution_outcome)')
   c.ensures('timeout_only_if_still_alive',
             'implies(result.phase_result is None, self._phase_execution_outcome is None and alive(self) and self._killed.is_set())')
@@ -94,11 +102,12 @@ def register(reg):
   c.ensures('fresh_result_unless_stored', 'implies(self._phase_execution_outcome is None, is_fresh(result))')
   c.modifies('self._phase_execution_outcome', 'threading.Thread.alive', 'event.flag')
   c.loop('while time.monotonic() < deadline',
-         inv=[('a_stored_outcome_has_a_result', 'self._phase_execution_outcome is None or self._phase_execution_outcome.phase_result is not None')], modifies=['self._phase_execution_outcome', 'threading.Thread.alive'])
+         inv=[('a_stored_outcome_is_valid', 'self._phase_execution_outcome is None or (self._phase_execution_outcome.phase_result is not None and (not self._phase_execution_outcome.is_fail_subtest or self._subtest_rec is not None))')], modifies=['self._phase_execution_outcome', 'threading.Thread.alive'])
 
 
   register_finalize(reg)
   register_finalize2(reg)
+  register_executor(reg)
 
   c = reg.contract('openhtf/util/threads.py', 'KillableThread.kill', props=['C12'])
   c.ensures('kill_flag_set', 'self._killed.is_set()')
@@ -247,6 +256,9 @@ def register_finalize2(reg):
   c.ensures('terminal_result_is_kept', 'implies(%s is not None and %s.is_terminal, %s is %s)' % (r0, r0, res, r0))
   c.ensures('repeat_and_skip_are_SKIP', 'implies(not %s and (%s or %s) and %s is %s, %s is %s.SKIP)'
             % (err0, kind0('REPEAT'), kind0('SKIP'), res, r0, out, PO))
+  c.ensures('skip_and_repeat_keep_their_result',
+            'implies(not %s and (%s or %s) and old(all(m.outcome is not measurements.Outcome.PARTIALLY_SET for m in self.measurements.values())), %s is %s)'
+            % (err0, kind0('REPEAT'), kind0('SKIP'), res, r0))
   c.ensures('a_replaced_result_is_an_ERROR', 'implies(%s is not %s, %s and %s is %s.ERROR)' % (res, r0, term1, out, PO))
   c.ensures('fail_results_are_FAIL', 'implies(not %s and (%s or %s), %s is (%s.ERROR if %s else %s.FAIL))'
             % (err0, kind0('FAIL_SUBTEST'), kind0('FAIL_AND_CONTINUE'), out, PO, term1, PO))
@@ -275,3 +287,72 @@ def register_finalize2(reg):
              rec + '.marginal', rec + '.end_time_millis', rec + '.options', 'list(%s.failure_diagnosis_results)' % rec,
              'list(%s.diagnosis_results)' % rec, 'list(self.test_state.test_record.diagnoses)', 'DiagnosesStore._diagnoses_by_results',
              'DiagnosesStore._diagnoses')
+
+
+def register_executor(reg):
+  from pyvc.opaque import effectful
+  TRP = 'openhtf/core/test_record.py'
+  reg.shape('PhaseState', _cached='dict', _update_measurements='set')
+  reg.shape('PhaseExecutor', logger='ref:logger')
+  reg.shape('TestRecord', _cached_phases='own:list')
+  # run_if is user code: arbitrary value or exception, touching no framework-private state
+  reg.opaque['run_if'] = effectful('run_if', 'val', may_raise=('Exception',), havoc=('*user',))
+
+  c = reg.contract(TS, 'PhaseState.from_descriptor', props=())
+  c.param('phase_desc', 'ref:PhaseDescriptor').param('test_state', 'ref:TestState').param('logger', 'ref:logger')
+  c.returns('ref:PhaseState')
+  c.ensures('fresh_state', 'is_fresh(result) and is_fresh(result.phase_record) and result.phase_record.result is None and '
+            'result.phase_record.outcome is None and not result.hit_repeat_limit and result.options is phase_desc.options and '
+            'result.test_state is test_state and result.diagnosers is phase_desc.diagnosers and is_fresh(result.measurements) and '
+            'is_fresh(result.phase_record.failure_diagnosis_results) and is_fresh(result.phase_record.diagnosis_results) and '
+            'is_fresh(result._cached) and is_fresh(result._update_measurements) and '
+            'all(m.outcome is measurements.Outcome.UNSET for m in result.measurements.values())')
+  c.modifies()
+  c.trusted('per-run copies of the measurements and a fresh PhaseRecord (subject of C06/C11)')
+
+  c = reg.contract(TRP, 'PhaseRecord.as_base_types', props=())
+  c.returns('dict').modifies()
+  c.trusted('rendering (subject of C10)')
+
+  records = 'self.test_state.test_record.phases'
+  prefix_kept = 'forall_int(lambda j: implies(0 <= j and j < old(len({r})), {r}[j] is old(content({r}))[j]))'.format(r=records)
+  last = '{r}[len({r}) - 1]'.format(r=records)
+
+  # ---------------------------------------------------------------- one invocation
+  c = reg.contract(PE, 'PhaseExecutor._execute_phase_once', props=['C05', 'C01'])
+  c.param('phase_desc', 'ref:PhaseDescriptor').param('is_last_repeat', 'bool').param('run_with_profiling', 'bool')
+  c.param('subtest_rec', 'opt:ref:SubtestRecord')
+  c.ghost('diag_calls', 'int').ghost('body_starts', 'int')
+  c.returns('ptuple(ref:PhaseExecutionOutcome;val{none,ref:object})')
+  c.requires('no_phase_running', 'self.test_state.running_phase_state is None')
+  c.requires('not_profiling', 'not run_with_profiling')
+  c.requires('timeout_is_a_number', 'phase_desc.options.timeout_s is None or (phase_desc.options.timeout_s >= 0 and phase_desc.options.timeout_s < 2**60)')
+  one = 'len({r}) == old(len({r})) + 1'.format(r=records)
+  none_ = 'len({r}) == old(len({r}))'.format(r=records)
+  c.ensures('at_most_one_record', '(%s or %s) and %s' % (one, none_, prefix_kept))
+  c.ensures('no_record_means_no_body', "implies(%s, ghost('body_starts') == old(ghost('body_starts')) and "
+            "(result[0].phase_result is %s.SKIP or isinstance(result[0].phase_result, ExceptionInfo)))" % (none_, PR))
+  c.ensures('at_most_one_invocation', "ghost('body_starts') <= old(ghost('body_starts')) + 1")
+  c.ensures('record_has_outcome', 'implies(%s, %s.outcome is not None and %s.end_time_millis is not None and %s.options is phase_desc.options)'
+            % (one, last, last, last))
+  c.ensures('ERROR_record_means_terminal_result', 'implies(%s and %s.outcome is %s.ERROR, result[0].is_terminal)' % (one, last, PO))
+  c.ensures('PASS_record_means_CONTINUE', 'implies(%s and %s.outcome is %s.PASS, result[0].phase_result is %s.CONTINUE)' % (one, last, PO, PR))
+  c.ensures('repeat_limit_becomes_STOP', 'implies(result[0].phase_result is %s.REPEAT, not is_last_repeat)' % PR)
+  c.ensures('fail_subtest_only_in_subtest', 'implies(result[0].is_fail_subtest, subtest_rec is not None)')
+  c.ensures('phase_slot_released', 'self.test_state.running_phase_state is None')
+  c.modifies('*user', 'list(%s)' % records, 'self.test_state.running_phase_state', 'self.test_state._running_test_api',
+             'self._current_phase_thread', 'PhaseRecord.outcome', 'PhaseRecord.result', 'PhaseRecord.marginal',
+             'PhaseRecord.end_time_millis', 'PhaseRecord.options', 'event.flag', 'threading.Thread.alive')
+
+  c = reg.contract(PE, 'PhaseExecutor.skip_phase', props=['C05', 'C02'], name='PhaseExecutor.skip_phase[verify]', callsite=False)
+  c.param('phase_desc', 'ref:PhaseDescriptor').param('subtest_rec', 'opt:ref:SubtestRecord')
+  c.ghost('diag_calls', 'int').ghost('body_starts', 'int')
+  c.requires('no_phase_running', 'self.test_state.running_phase_state is None')
+  c.ensures('one_skip_record', '%s and %s.outcome is %s.SKIP and %s' % (one, last, PO, prefix_kept))
+  c.ensures('body_not_invoked', "ghost('body_starts') == old(ghost('body_starts')) and ghost('diag_calls') == old(ghost('diag_calls'))")
+  c.modifies('list(%s)' % records, 'self.test_state.running_phase_state', 'self.test_state._running_test_api',
+             'PhaseRecord.outcome', 'PhaseRecord.result', 'PhaseRecord.marginal', 'PhaseRecord.end_time_millis',
+             'PhaseRecord.start_time_millis', 'PhaseRecord.options', 'PhaseRecord.measurements', 'PhaseRecord.subtest_name',
+             'Measurement.outcome', 'Measurement.marginal', 'Measurement._notification_cb',
+             'DiagnosesStore._diagnoses_by_results', 'DiagnosesStore._diagnoses', 'list(self.test_state.test_record._cached_phases)',
+             'list(self.test_state.test_record.diagnoses)')
